@@ -2,7 +2,9 @@
 // and the predictive parser (C12) of moorara/algo.
 //
 //	header:  G <nT> <nN> <start> <prods>     prods = ';'-joined  head>sym,sym,...   sym = t<i> | n<i>   ("-" = none)
-//	         terminals are t0..t(nT-1), non-terminals N0..N(nN-1)
+//	         terminals are t0..t(nT-1), non-terminals N0..N(nN-1); with the optional sixth field
+//	         "names=same" terminal i and non-terminal i carry the same NAME ("X<i>"): symbols are
+//	         told apart by their Go type only
 //	ops:     V                 -> ok | err                      Verify()
 //	         RE                -> -                             drop the cached FIRST / FOLLOW closures
 //	         NUL               -> 0.2 | -                       NullableNonTerminals()  (sorted indices)
@@ -14,6 +16,11 @@
 //	         P <tokens>        -> acc;<prods> | rej:<k>;<prods> | tblerr     Parse: verdict, production callback sequence
 //	         A <tokens>        -> acc;<yield>;<tree> | rej | tblerr          ParseAndBuildAST
 //	                              tokens = 0.1.0 | e (terminal indices; the lexeme of token i is "l<i>")
+//	         P, A, TBL build a fresh grammar object for every call.  The following ops work on the ONE
+//	         grammar object of the case (the one NUL / FI / FO / LL1 use) and edit it in place:
+//	         ADDP h>body | DELP h>body | ADDT   -> -     G.Productions.Add / Remove, G.Terminals.Add(t<nT>)
+//	         MP <tokens> | MA <tokens> | MTBL   -> as P / A / TBL, on the shared (edited) grammar object, new parser
+//	         RP <tokens>                        -> as P, re-using one parser object (and lexer) for all RP ops
 package main
 
 import (
@@ -52,7 +59,11 @@ type pdesc struct {
 type gdesc struct {
 	nT, nN, start int
 	prods         []pdesc
+	same          bool // terminal i and non-terminal i share their name
 }
+
+// sameNames is the naming mode of the case being executed (cases run one at a time).
+var sameNames bool
 
 func (s sdesc) String() string {
 	if s.term {
@@ -85,7 +96,11 @@ func (g gdesc) header() string {
 	if s == "" {
 		s = "-"
 	}
-	return fmt.Sprintf("G %d %d %d %s", g.nT, g.nN, g.start, s)
+	h := fmt.Sprintf("G %d %d %d %s", g.nT, g.nN, g.start, s)
+	if g.same {
+		h += " names=same"
+	}
+	return h
 }
 
 func parseSyms(s string) ([]sdesc, error) {
@@ -109,8 +124,14 @@ func parseSyms(s string) ([]sdesc, error) {
 func parseHeader(h string) (gdesc, error) {
 	f := strings.Fields(h)
 	var g gdesc
-	if len(f) != 5 || f[0] != "G" {
+	if (len(f) != 5 && len(f) != 6) || f[0] != "G" {
 		return g, fmt.Errorf("bad header %q", h)
+	}
+	if len(f) == 6 {
+		if f[5] != "names=same" {
+			return g, fmt.Errorf("bad header %q", h)
+		}
+		g.same = true
 	}
 	g.nT, _ = strconv.Atoi(f[1])
 	g.nN, _ = strconv.Atoi(f[2])
@@ -135,8 +156,20 @@ func parseHeader(h string) (gdesc, error) {
 	return g, nil
 }
 
-func tName(i int) grammar.Terminal     { return grammar.Terminal("t" + strconv.Itoa(i)) }
-func nName(i int) grammar.NonTerminal  { return grammar.NonTerminal("N" + strconv.Itoa(i)) }
+func tName(i int) grammar.Terminal {
+	if sameNames {
+		return grammar.Terminal("X" + strconv.Itoa(i))
+	}
+	return grammar.Terminal("t" + strconv.Itoa(i))
+}
+
+func nName(i int) grammar.NonTerminal {
+	if sameNames {
+		return grammar.NonTerminal("X" + strconv.Itoa(i))
+	}
+	return grammar.NonTerminal("N" + strconv.Itoa(i))
+}
+
 func tIndex(t grammar.Terminal) int    { i, _ := strconv.Atoi(string(t)[1:]); return i }
 func nIndex(n grammar.NonTerminal) int { i, _ := strconv.Atoi(string(n)[1:]); return i }
 
@@ -198,6 +231,8 @@ type inst struct {
 	first  grammar.FIRST
 	follow grammar.FOLLOW
 	table  *predictive.ParsingTable
+	lex    *sliceLexer   // lexer of the re-used parser object
+	parser parser.Parser // one parser object re-used by all RP ops
 }
 
 func newInst(d gdesc) *inst {
@@ -317,6 +352,7 @@ func (in *inst) exec(op string) (res string) {
 		return "err"
 	case "RE":
 		in.first, in.follow, in.table = nil, nil, nil
+		in.parser, in.lex = nil, nil
 		in.g, in.prods = in.d.build()
 		return "-"
 	case "NUL":
@@ -390,10 +426,54 @@ func (in *inst) exec(op string) (res string) {
 			s = "s"
 		}
 		return joinInts(xs, "-") + "/" + s
-	case "P":
-		g, _ := in.d.build()
+	case "ADDP", "DELP":
+		hb := strings.SplitN(f[1], ">", 2)
+		hd, _ := strconv.Atoi(hb[0])
+		body, err := parseSyms(hb[1])
+		if err != nil {
+			return "BADOP"
+		}
+		pr := &grammar.Production{Head: nName(hd), Body: goSyms(body)}
+		idx := in.prodIndex(pr)
+		if f[0] == "ADDP" && idx < 0 {
+			in.g.Productions.Add(pr)
+			in.prods = append(in.prods, pr)
+			in.d.prods = append(append([]pdesc{}, in.d.prods...), pdesc{hd, body})
+		} else if f[0] == "DELP" && idx >= 0 {
+			in.g.Productions.Remove(pr)
+			in.prods = append(append([]*grammar.Production{}, in.prods[:idx]...), in.prods[idx+1:]...)
+			in.d.prods = append(append([]pdesc{}, in.d.prods[:idx]...), in.d.prods[idx+1:]...)
+		}
+		in.first, in.follow, in.table = nil, nil, nil
+		return "-"
+	case "ADDT":
+		in.g.Terminals.Add(tName(in.d.nT))
+		in.d.nT++
+		in.first, in.follow, in.table = nil, nil, nil
+		return "-"
+	case "MTBL":
+		_, err := predictive.BuildParsingTable(in.g)
+		if err == nil {
+			return "ok"
+		}
+		return "conflict"
+	case "P", "MP", "RP":
 		w := parseTokens(f[1])
-		p := predictive.New(g, &sliceLexer{toks: w})
+		var p parser.Parser
+		switch f[0] {
+		case "P":
+			g, _ := in.d.build()
+			p = predictive.New(g, &sliceLexer{toks: w})
+		case "MP":
+			p = predictive.New(in.g, &sliceLexer{toks: w})
+		default:
+			if in.parser == nil {
+				in.lex = &sliceLexer{}
+				in.parser = predictive.New(in.g, in.lex)
+			}
+			in.lex.toks, in.lex.pos = w, 0
+			p = in.parser
+		}
 		var seq []int
 		err := p.Parse(
 			func(*lexer.Token) error { return nil },
@@ -407,9 +487,12 @@ func (in *inst) exec(op string) (res string) {
 			return c
 		}
 		return c + ";" + joinInts(seq, "-")
-	case "A":
-		g, _ := in.d.build()
+	case "A", "MA":
 		w := parseTokens(f[1])
+		g := in.g
+		if f[0] == "A" {
+			g, _ = in.d.build()
+		}
 		p := predictive.New(g, &sliceLexer{toks: w})
 		root, err := p.ParseAndBuildAST()
 		if err == nil {
@@ -432,6 +515,7 @@ func (in *inst) exec(op string) (res string) {
 // runCase executes one case under a watchdog: a fixpoint or parser loop that never returns is
 // reported as HANG on the op that was running, and the process exits (the goroutine spins).
 func runCase(w *tr.W, d gdesc, ops []string) {
+	sameNames = d.same
 	w.Begin("%s", d.header())
 	done := make(chan struct{})
 	var cur atomic.Value
@@ -538,7 +622,8 @@ func c10Ops(d gdesc, r *rng.R, maxAlpha, extra int) []string {
 		}
 		ops = append(ops, "LL1", "TBL")
 	}
-	return ops
+	// in-place edits of the one grammar object, everything recomputed on it
+	return append(ops, editOps(d, r, nil, 2, 0, false)...)
 }
 
 // ---- sentences
@@ -660,7 +745,26 @@ func tokenStrings(nT, n int) [][]int {
 // c12Ops: Parse / ParseAndBuildAST on all strings up to a bound plus sentences, sentences with
 // extra tokens, truncated and perturbed sentences (up to length 7, one longer for the extras).
 func c12Ops(d gdesc, r *rng.R, allLen, nSent int) []string {
+	sameNames = d.same
 	ops := []string{"V", "TBL"}
+	ws := stringsFor(d, r, allLen, nSent)
+	for _, w := range ws {
+		ops = append(ops, "P "+tokensString(w))
+	}
+	for i, w := range ws {
+		if len(ws) < 80 || i%3 == 0 || len(w) > allLen {
+			ops = append(ops, "A "+tokensString(w))
+		}
+	}
+	rounds, per := 3, 5
+	if allLen >= 4 && d.nN <= 2 && len(d.prods) <= 3 {
+		rounds, per = 2, 3 // the exhaustive small family: many grammars, short batteries
+	}
+	return append(ops, editOps(d, r, ws, rounds, per, true)...)
+}
+
+// stringsFor: the inputs for one grammar (see c12Ops).
+func stringsFor(d gdesc, r *rng.R, allLen, nSent int) [][]int {
 	g, _ := d.build()
 	_, terr := predictive.BuildParsingTable(g)
 	seen := map[string]bool{}
@@ -707,13 +811,124 @@ func c12Ops(d gdesc, r *rng.R, allLen, nSent int) []string {
 		// a token that is not a terminal of the grammar
 		add([]int{d.nT})
 	}
-	for _, w := range ws {
-		ops = append(ops, "P "+tokensString(w))
-	}
-	for i, w := range ws {
-		if len(ws) < 80 || i%3 == 0 || len(w) > allLen {
-			ops = append(ops, "A "+tokensString(w))
+	return ws
+}
+
+func hasProd(d gdesc, p pdesc) bool {
+	k := symsString(p.body)
+	for _, q := range d.prods {
+		if q.head == p.head && symsString(q.body) == k {
+			return true
 		}
+	}
+	return false
+}
+
+// randomEdit picks an in-place edit of the grammar that keeps Verify() happy: add a production,
+// remove a production whose head keeps another one, or add a terminal.
+func randomEdit(d gdesc, r *rng.R) (string, gdesc) {
+	nd := d
+	nd.prods = append([]pdesc{}, d.prods...)
+	for try := 0; try < 20; try++ {
+		switch r.Intn(5) {
+		case 0, 1:
+			p := pdesc{r.Intn(d.nN), randBody(r, d, 2, 60)}
+			if r.Chance(1, 3) && d.nT > 0 {
+				p.body = append([]sdesc{{true, r.Intn(d.nT)}}, p.body...)
+			}
+			if !hasProd(d, p) {
+				nd.prods = append(nd.prods, p)
+				return "ADDP " + strconv.Itoa(p.head) + ">" + symsString(p.body), nd
+			}
+		case 2, 3:
+			i := r.Intn(len(d.prods))
+			n := 0
+			for _, q := range d.prods {
+				if q.head == d.prods[i].head {
+					n++
+				}
+			}
+			if n >= 2 {
+				p := d.prods[i]
+				nd.prods = append(nd.prods[:i], nd.prods[i+1:]...)
+				return "DELP " + strconv.Itoa(p.head) + ">" + symsString(p.body), nd
+			}
+		case 4:
+			if d.nT < 5 {
+				nd.nT++
+				return "ADDT", nd
+			}
+		}
+	}
+	return "", d
+}
+
+// editOps: work on the ONE grammar object of the case.  Parse a few inputs, edit the grammar in
+// place through its public API, parse again with new parser objects (MP / MA), with one re-used
+// parser object (RP) and rebuild the table (MTBL); the model is run on the edited grammar.
+func editOps(d gdesc, r *rng.R, ws [][]int, rounds, perRound int, parse bool) []string {
+	var ops []string
+	pick := func(cur gdesc, pool [][]int) [][]int {
+		var out [][]int
+		seen := map[string]bool{}
+		add := func(w []int) {
+			if k := tokensString(w); !seen[k] {
+				seen[k] = true
+				out = append(out, w)
+			}
+		}
+		for i := 0; i < perRound && len(pool) > 0; i++ {
+			add(pool[r.Intn(len(pool))])
+		}
+		ml := minLens(cur)
+		for i := 0; i < 1+perRound/4; i++ {
+			if s, ok := genSentence(cur, ml, r, []int{4, 2, 6}[i%3]); ok {
+				add(s)
+				if len(s) > 0 {
+					add(s[:len(s)-1])
+				}
+				if cur.nT > 0 {
+					add(append(append([]int{}, s...), r.Intn(cur.nT)))
+				}
+			}
+		}
+		return out
+	}
+	emit := func(cur gdesc) {
+		ops = append(ops, "MTBL")
+		if !parse {
+			ops = append(ops, "NUL", "LL1")
+			for i := 0; i < cur.nN; i++ {
+				ops = append(ops, fmt.Sprintf("FI n%d", i), fmt.Sprintf("FO n%d", i))
+			}
+			return
+		}
+		sel := pick(cur, ws)
+		for i, w := range sel {
+			ops = append(ops, "MP "+tokensString(w))
+			if i%2 == 0 {
+				ops = append(ops, "RP "+tokensString(w))
+			}
+		}
+		for i, w := range sel {
+			if i%3 == 0 {
+				ops = append(ops, "MA "+tokensString(w))
+			}
+		}
+		if len(sel) > 0 {
+			ops = append(ops, "RP "+tokensString(sel[len(sel)-1]), "RP "+tokensString(sel[0]))
+		}
+	}
+	cur := d
+	emit(cur)
+	for k := 0; k < rounds; k++ {
+		op, nd := randomEdit(cur, r)
+		if op == "" {
+			break
+		}
+		ops = append(ops, op)
+		cur = nd
+		emit(cur)
 	}
 	return ops
 }
@@ -721,6 +936,7 @@ func c12Ops(d gdesc, r *rng.R, allLen, nSent int) []string {
 // ---------------------------------------------------------------- grammar generators
 
 func verifies(d gdesc) bool {
+	sameNames = d.same
 	g, _ := d.build()
 	return g.Verify() == nil
 }
@@ -728,6 +944,8 @@ func verifies(d gdesc) bool {
 // enumGrammars: every grammar over nT terminals and nN non-terminals (start N0) whose production
 // set has between 1 and maxProds productions with bodies of length <= maxBody and in which every
 // non-terminal has a production (Verify() holds).
+var enumCount int
+
 func enumGrammars(nT, nN, maxBody, maxProds int, emit func(gdesc)) {
 	ss := allSyms(gdesc{nT: nT, nN: nN})
 	bodies := symStrings(ss, maxBody)
@@ -749,7 +967,8 @@ func enumGrammars(nT, nN, maxBody, maxProds int, emit func(gdesc)) {
 				ok = ok && h
 			}
 			if ok {
-				emit(gdesc{nT: nT, nN: nN, start: 0, prods: append([]pdesc{}, chosen...)})
+				enumCount++
+				emit(gdesc{nT: nT, nN: nN, start: 0, prods: append([]pdesc{}, chosen...), same: enumCount%2 == 0})
 			}
 		}
 		if len(chosen) == maxProds {
@@ -872,6 +1091,7 @@ func randGrammar(r *rng.R, style int) gdesc {
 			d.prods = append(d.prods, pdesc{h, randBody(r, d, 3, 60)})
 		}
 	}
+	d.same = r.Bool()
 	return dedup(d)
 }
 
@@ -945,7 +1165,7 @@ func main() {
 		}
 	case "c12-random":
 		r := rng.FromEnv(1212)
-		n := 1200
+		n := 1000
 		if thorough {
 			n = 20000
 		}
